@@ -239,7 +239,7 @@ func (e *Engine) evalSpec(x *SExpr, env *SpecEnv) Value {
 		case VStream:
 			return e.sel(b, idx)
 		case VSlice:
-			return e.wrap(mkSelect(b.Arr, idx), b.Elem)
+			return e.sliceElem(b, idx)
 		case VMap:
 			v, _ := e.mapGet(b, idx)
 			return v
@@ -248,6 +248,8 @@ func (e *Engine) evalSpec(x *SExpr, env *SpecEnv) Value {
 	case "field":
 		base := e.evalSpec(x.Args[0], env)
 		switch b := base.(type) {
+		case VElem:
+			return e.elemField(b, x.Val)
 		case VTerm:
 			if b.T.Sort == SRef {
 				return e.readField(env.st, b, x.Val)
@@ -593,6 +595,14 @@ func (e *Engine) evalSpecCall(x *SExpr, env *SpecEnv) Value {
 			r = r.(VTuple)[atoi(args[2].Val)]
 		}
 		return r
+	case "extrem", "csvfpr", "ftrunc", "fappend":
+		// ghost counters / flags of standard-library objects (remaining input, csv field count, open flags)
+		v := e.evalSpec(args[0], env)
+		vt, ok := v.(VTerm)
+		if !ok {
+			unsup("spec: %s of %T", name, v)
+		}
+		return VTerm{T: env.st.getMem(name+":"+vt.T.String(), mkApp(name+"0", SInt, vt.T)), Typ: intT}
 	case "nev":
 		v := e.evalSpec(args[0], env)
 		vt, ok := v.(VTerm)
